@@ -77,7 +77,78 @@ def rule_enrich(model: Model):
                               "(RuntimeError) - witness region m < rnew + kick"))
             else:
                 obs.append(Ob("X1-ENRICH", k, ERROR, model.where(f, radd), norm(radd), "radd expression not in a recognised form"))
+            obs += _carry(model, f, fs, n, arg, qname, rname, transposed)
     return obs
+
+
+def _carry(model, f, fs, qr_stmt, cat_call, qname, rname, transposed):
+    """ENRICH-CARRY (added after seed S4-C14-2).  `X, R = QR(cat((X, K)))` replaces the factor X by Q; the product X @ Y is kept only if
+    the other factor is multiplied by R afterwards.  The repository does that under `if radd > 0`, which is the whole story exactly when
+    the kick block K has at least one column: its extent along the concatenation axis has to be a quantity that is positive throughout the
+    property's domain (the enrichment parameter itself, kick >= 1) - or the multiplication by R must not be conditional."""
+    k = f"{fs}:X1-ENRICH:carry:{'RL' if transposed else 'LR'}"
+    parents = {}
+    for a in ast.walk(f.node):
+        for c in ast.iter_child_nodes(a):
+            parents[id(c)] = a
+    carries = [m for m in ast.walk(f.node) if isinstance(m, ast.Assign) and m.lineno > qr_stmt.lineno and isinstance(m.value, ast.BinOp)
+               and isinstance(m.value.op, ast.MatMult) and rname is not None
+               and any(isinstance(x, ast.Name) and x.id == rname for x in ast.walk(m.value))]
+    carries.sort(key=lambda m: m.lineno)
+    if not carries:
+        return [Ob("X1-ENRICH", k, VIOLATED, model.where(f, qr_stmt), norm(qr_stmt)[:90],
+                   f"the factor is replaced by the Q factor of its enrichment, but nothing multiplies the other factor by `{rname}`: the product of the two "
+                   "factors is no longer the truncated supercore")]
+    c = carries[0]
+    cond = None
+    cur = c
+    while id(cur) in parents and parents[id(cur)] is not parents.get(id(qr_stmt)):
+        cur = parents[id(cur)]
+        if isinstance(cur, ast.If):
+            cond = cur
+        if isinstance(cur, (ast.For, ast.While, ast.FunctionDef)):
+            break
+    if cond is None:
+        return [Ob("X1-ENRICH", k, OK, model.where(f, c), norm(c)[:90], "the other factor is multiplied by R unconditionally")]
+    # width of the kick block along the concatenation axis
+    elts = cat_call.args[0].elts if cat_call.args and isinstance(cat_call.args[0], (ast.Tuple, ast.List)) else list(cat_call.args)
+    axis = 1 if norm(cat_call.func).endswith("hstack") else 0 if norm(cat_call.func).endswith("vstack") else None
+    if axis is None:
+        ax = cat_call.args[1] if len(cat_call.args) > 1 else next((kw.value for kw in cat_call.keywords if kw.arg in ("dim", "axis")), None)
+        axis = ax.value if isinstance(ax, ast.Constant) and isinstance(ax.value, int) else None
+    kname = elts[1].id if len(elts) == 2 and isinstance(elts[1], ast.Name) else None
+    kdef = None
+    for m in ast.walk(f.node):
+        if isinstance(m, ast.Assign) and len(m.targets) == 1 and isinstance(m.targets[0], ast.Name) and m.targets[0].id == kname and m.lineno < qr_stmt.lineno \
+                and (kdef is None or m.lineno > kdef.lineno):
+            kdef = m
+    shape = kdef.value.args[0] if kdef is not None and isinstance(kdef.value, ast.Call) and kdef.value.args else None
+    if axis is None or not isinstance(shape, (ast.Tuple, ast.List)) or len(shape.elts) != 2:
+        return [Ob("X1-ENRICH", k, ERROR, model.where(f, qr_stmt), norm(qr_stmt)[:90], "the kick block / concatenation axis is not in a recognised form")]
+    w = shape.elts[axis]
+    params = set(f.params())
+    for _ in range(3):      # through locals bound once: `nk = kick`
+        if isinstance(w, ast.Name) and w.id not in params:
+            defs = [m for m in ast.walk(f.node) if isinstance(m, ast.Assign) and len(m.targets) == 1 and isinstance(m.targets[0], ast.Name) and m.targets[0].id == w.id
+                    and m.lineno < kdef.lineno]
+            if defs:
+                w = max(defs, key=lambda m: m.lineno).value       # the binding in force at the kick block (straight-line code of one loop body)
+                continue
+        break
+    if isinstance(w, ast.Name) and w.id in params:
+        return [Ob("X1-ENRICH", k, OK, model.where(f, c), f"if {norm(cond.test)}: {norm(c)[:60]}",
+                   f"the kick block has `{w.id}` columns - the enrichment parameter, at least 1 in the property's domain - so `{norm(cond.test)}` always holds "
+                   "and the other factor is always multiplied by R")]
+    if isinstance(w, ast.Constant) and isinstance(w.value, int) and w.value >= 1:
+        return [Ob("X1-ENRICH", k, OK, model.where(f, c), norm(c)[:90], "the kick block has a positive constant width")]
+    can_vanish = any((isinstance(x, ast.Call) and isinstance(x.func, ast.Name) and x.func.id == "min") or (isinstance(x, ast.BinOp) and isinstance(x.op, ast.Sub))
+                     for x in ast.walk(w))
+    if not can_vanish:
+        return [Ob("X1-ENRICH", k, ERROR, model.where(f, kdef), norm(kdef)[:100], f"the width `{norm(w)}` of the kick block is not in a form whose sign is known")]
+    return [Ob("X1-ENRICH", k, VIOLATED, model.where(f, kdef), norm(kdef)[:100],
+               f"the kick block has `{norm(w)}` columns, which is not the (positive) enrichment parameter: when it is 0 the QR still replaces the factor by Q "
+               f"(columns re-signed / re-mixed by R) while `if {norm(cond.test)}` skips the multiplication of the other factor by `{rname}` - the product of the "
+               "two factors is no longer the truncated supercore and the core written back is wrong")]
 
 
 def check(model: Model, tier: str):
